@@ -3,15 +3,13 @@
 From Boltons Require Import Lib.Prelude Lib.C03_Syntax Lib.C03_Conc Model.C03_Model
      Proofs.C03_Serial Proofs.C03_Covered.
 
-(* programs are built from the operations whose atomicity C03 claims *)
-Definition lop := { o : op | op_locked o = true }.
-Definition lop_op (x : lop) : op := proj1_sig x.
-Definition compile_l (tb : lock_table) (c : config) (x : lop) : P rv := compile_cfg tb c (lop_op x).
+(* programs are lists of public operations (Lib/C03_Syntax.op) *)
+Definition compile_l (tb : lock_table) (c : config) (x : op) : P rv := compile_cfg tb c x.
 
-Definition conc_run (tb : lock_table) (c : config) (progs : nat -> list lop) (sh0 : shared) (sched : list nat) :=
+Definition conc_run (tb : lock_table) (c : config) (progs : nat -> list op) (sh0 : shared) (sched : list nat) :=
   run sem (compile_l tb c) (reentrant tb) sched (init_state sh0 progs).
 
-Definition serial_run (tb : lock_table) (c : config) (progs : nat -> list lop) (sh0 : shared) (order : list nat) :=
+Definition serial_run (tb : lock_table) (c : config) (progs : nat -> list op) (sh0 : shared) (order : list nat) :=
   serial sem (compile_l tb c) order sh0 progs.
 
 Lemma covered_reentrant tb : table_covered tb = true -> reentrant tb = true.
@@ -28,8 +26,8 @@ Theorem serialisable_model :
 Proof.
   intros tb T c progs sh0 sched. unfold conc_run, serial_run.
   rewrite (covered_reentrant tb T).
-  apply (serialisable shared act ares sem lop rv (compile_l tb c) progs sh0).
-  intro o. unfold compile_l. apply compile_one_cs; [exact T|]. exact (proj2_sig o).
+  apply (serialisable shared act ares sem op rv (compile_l tb c) progs sh0).
+  intro o. unfold compile_l. apply compile_one_cs. exact T.
 Qed.
 
 Theorem no_deadlock_model :
@@ -41,12 +39,11 @@ Theorem no_deadlock_model :
 Proof.
   intros tb T c progs sh0 sched. unfold conc_run.
   rewrite (covered_reentrant tb T).
-  apply (progress shared act ares sem lop rv (compile_l tb c) progs sh0).
-  intro o. unfold compile_l. apply compile_one_cs; [exact T|]. exact (proj2_sig o).
+  apply (progress shared act ares sem op rv (compile_l tb c) progs sh0).
+  intro o. unfold compile_l. apply compile_one_cs. exact T.
 Qed.
 
 (* ---- the hypothesis is not decorative --------------------------------------------- *)
-Definition mk_lop (o : op) (H : op_locked o = true) : lop := exist _ o H.
 
 (* a table in which __setitem__'s accesses are outside the lock *)
 Definition tb_unlocked_setitem : lock_table :=
@@ -54,10 +51,10 @@ Definition tb_unlocked_setitem : lock_table :=
 
 Definition cfg1 : config := mkConfig LRI 1 None.
 
-Definition progs_two_sets : nat -> list lop :=
+Definition progs_two_sets : nat -> list op :=
   fun t => match t with
-           | 0 => [mk_lop (SetItem 0 10) eq_refl]
-           | 1 => [mk_lop (SetItem 1 11) eq_refl]
+           | 0 => [SetItem 0 10]
+           | 1 => [SetItem 1 11]
            | _ => []
            end.
 
@@ -75,5 +72,5 @@ Proof. vm_compute. repeat split; reflexivity. Qed.
 (* a plain (non re-entrant) Lock: one thread deadlocks on itself in setdefault -> self[key] *)
 Definition tb_plain_lock (tb : lock_table) : lock_table := mkTable CtorLock (t_methods tb).
 
-Definition progs_setdefault : nat -> list lop :=
-  fun t => match t with 0 => [mk_lop (SetDefault 0 10) eq_refl] | _ => [] end.
+Definition progs_setdefault : nat -> list op :=
+  fun t => match t with 0 => [SetDefault 0 10] | _ => [] end.
